@@ -346,10 +346,8 @@ class RealWorld(object):
         exception escaping the method shows as ('exc', 'http', 500), as a client would see it"""
         try:
             r = self.stack.call('supervisor.reloadConfig', ())
-        except Exception as e:
-            return ('exc', type(e).__name__, str(e))
-        except SystemExit as e:
-            return ('exc', 'SystemExit', str(e))
+        except BaseException as e:       # SystemExit (usage() -> sys.exit) included: the daemon would be gone
+            return ('exc', type(e).__name__, str(e)[:300])
         if r[0] == 'value':
             return ('ok', r[1])
         if r[0] == 'fault':
